@@ -58,6 +58,72 @@ Proof.
     f_equal. apply IH; try assumption. lia.
 Qed.
 
+(* ---- the seat number inside a priority pre-image: big.Int.Bytes() ------------- *)
+Lemma be_val_app1 : forall l b, be_val (l ++ [b]) = be_val l * 256 + b.
+Proof. intros l b. unfold be_val. rewrite fold_left_app. reflexivity. Qed.
+
+Lemma min_be_fuel_val : forall f x, 0 <= x < 2 ^ Z.of_nat f -> be_val (min_be_fuel f x) = x.
+Proof.
+  induction f as [|f IH]; intros x Hx.
+  - cbn in Hx. assert (x = 0) by lia. subst. reflexivity.
+  - cbn [min_be_fuel]. destruct (x <=? 0) eqn:E.
+    + assert (x = 0) by lia. subst. reflexivity.
+    + rewrite be_val_app1, IH.
+      * pose proof (Z.div_mod x 256 ltac:(lia)). lia.
+      * rewrite Nat2Z.inj_succ, Z.pow_succ_r in Hx by lia.
+        split; [apply Z.div_pos; lia|]. apply Z.div_lt_upper_bound; lia.
+Qed.
+
+Lemma min_be_fuel_ok : forall x, 0 <= x -> x < 2 ^ Z.of_nat (S (Z.to_nat (Z.log2 x))).
+Proof.
+  intros x Hx. rewrite Nat2Z.inj_succ, Z2Nat.id by apply Z.log2_nonneg.
+  destruct (Z.eq_dec x 0) as [->|Hz]; [cbn; lia|]. apply Z.log2_spec. lia.
+Qed.
+
+(* big-endian value of the minimal encoding is the seat number ... *)
+Lemma min_be_val : forall x, 0 <= x -> be_val (min_be x) = x.
+Proof.
+  intros x Hx. unfold min_be. apply min_be_fuel_val. split; [exact Hx|apply min_be_fuel_ok; exact Hx].
+Qed.
+
+(* ... so distinct seats have distinct encodings ... *)
+Lemma min_be_inj : forall i j, 0 <= i -> 0 <= j -> min_be i = min_be j -> i = j.
+Proof.
+  intros i j Hi Hj E. rewrite <- (min_be_val i Hi), <- (min_be_val j Hj), E. reflexivity.
+Qed.
+
+(* ... and distinct pre-images under the same VRF output *)
+Lemma seat_preimage_inj : forall hash i j, 0 <= i -> 0 <= j ->
+  be_bytes 32 hash ++ min_be i = be_bytes 32 hash ++ min_be j -> i = j.
+Proof.
+  intros hash i j Hi Hj E. apply app_inv_head in E. apply min_be_inj; assumption.
+Qed.
+
+(* minimal: no leading zero byte (nothing at all for seat 0), every byte a byte *)
+Lemma min_be_fuel_head : forall f x, 0 < x < 2 ^ Z.of_nat f ->
+  exists b l, min_be_fuel f x = b :: l /\ 0 < b < 256.
+Proof.
+  induction f as [|f IH]; intros x Hx.
+  - cbn in Hx. lia.
+  - cbn [min_be_fuel]. destruct (x <=? 0) eqn:E; [lia|].
+    destruct (Z.eq_dec (x / 256) 0) as [Hq|Hq].
+    + rewrite Hq. destruct f; cbn [min_be_fuel]; cbn [Z.leb Z.compare app];
+        (exists (x mod 256), []; split; [reflexivity|]);
+        pose proof (Z.div_mod x 256 ltac:(lia)); pose proof (Z.mod_pos_bound x 256 ltac:(lia)); lia.
+    + assert (Hq' : 0 < x / 256) by (pose proof (Z.div_pos x 256 ltac:(lia) ltac:(lia)); lia).
+      rewrite Nat2Z.inj_succ, Z.pow_succ_r in Hx by lia.
+      destruct (IH (x / 256)) as (b & l & El & Hb).
+      { split; [exact Hq'|apply Z.div_lt_upper_bound; lia]. }
+      rewrite El. exists b, (l ++ [x mod 256]). split; [reflexivity|exact Hb].
+Qed.
+
+Lemma min_be_minimal : forall x,
+  min_be 0 = [] /\ (0 < x -> exists b l, min_be x = b :: l /\ 0 < b < 256).
+Proof.
+  intros x. split; [reflexivity|]. intros Hx. unfold min_be. apply min_be_fuel_head.
+  split; [exact Hx|apply min_be_fuel_ok; lia].
+Qed.
+
 Section Unique.
   Variable PK : Type.
   Variable field_p : Z.
@@ -158,3 +224,16 @@ Section Unique.
     rewrite Hc in Hc'. injection Hc' as <-. split; congruence.
   Qed.
 End Unique.
+
+(* ---- Server.verifyPriority ------------------------------------------------------- *)
+Lemma server_priority_refuted :
+  ~ (forall r, server_verify_priority false r = true -> r = PvResult true).
+Proof. intro H. specialize (H (PvResult false) eq_refl). discriminate H. Qed.
+
+Lemma server_priority_holds_outside : forall r, r <> PvResult false ->
+  server_verify_priority false r = true -> r = PvResult true.
+Proof. intros [[|]| | | |] Hn H; try discriminate H; [reflexivity|congruence]. Qed.
+
+Lemma server_priority_repaired : forall r,
+  server_verify_priority true r = true <-> r = PvResult true.
+Proof. intros [[|]| | | |]; cbn; split; intro H; try discriminate H; reflexivity. Qed.
